@@ -35,7 +35,16 @@ let deadline = ref infinity
 let time_limit = 15.0
 let _ = Gc.create_alarm (fun () -> if Sys.time () > !deadline then (deadline := infinity; raise Timeout))
 
+(* n:<k>:<coeffs>:<lo>:<hi> (harness/c10.c): the number a:<coeffs>:<lo>:<hi> held with the defining polynomial k*f *)
+let unscale tok =
+  if String.length tok > 2 && tok.[0] = 'n' && tok.[1] = ':' then
+    (match String.split_on_char ':' tok with
+     | "n" :: _k :: rest -> String.concat ":" ("a" :: rest)
+     | _ -> tok)
+  else tok
+
 let rec run (toks : string list) (cout : string list) : string =
+  let toks = List.map unscale toks in
   deadline := Sys.time () +. time_limit;
   let r = (try run1 toks cout with Timeout -> "FUEL timeout") in
   deadline := infinity; r
